@@ -108,7 +108,7 @@ def classify(roles, f, unit, restrict, v1, v2, to_string_key, str_to_number_key,
     s2n = [x for x in calls if str_to_number_key and x[3].get("key") == str_to_number_key]
     streq = [x for x in calls if re.search(r"PartialEq.*::(eq|ne)$", x[3]["path"]) and re.search(r"String|str", x[3].get("full") or x[3]["path"]) and not re.search(r"serde_json::(Number|Value) as", x[3]["path"])]
     booleq = [c for c in cmps if c[3].get("opty") == "bool"] + [x for x in calls if re.search(r"PartialEq.*::(eq|ne)$", x[3]["path"]) and "bool" in (x[3].get("full") or "")]
-    o.detail.update({"int_accessors": [x[3]["path"] for x in int_acc], "value_eq": [x[3]["path"] for x in num_eq], "ops": sorted({c[3]["op"] for c in cmps})})
+    o.detail.update({"ne_calls": [x[3]["path"] for x in calls if re.search(r"PartialEq.*::ne$", x[3]["path"])], "int_accessors": [x[3]["path"] for x in int_acc], "value_eq": [x[3]["path"] for x in num_eq], "ops": sorted({c[3]["op"] for c in cmps})})
     if num_eq:
         o.kind = "SPELLING-EQ"
     elif int_acc and feq:
